@@ -1,9 +1,11 @@
 /-
   Model of class MDSDRV_Linker (/repo/src/platform/mdsdrv.cpp + mdsdrv.h) as it is after the
-  `fix:` commits 795bab9 (get_seq_data keeps no state), b631743 (short ver/seq chunk),
-  f4c9b9c (PCM header outside pcmd), 2e3fb5a (pointer slot outside the sequence), bbcbd9c
-  (pitch clamp before narrowing), bd33990 (identifier beginning with a digit), 8d3c42d (sample index
-  of add_sample kept in an unsigned int).
+  `fix:` commits 81bf063 (get_seq_data keeps no state), 7ae57e5 (short ver/seq chunk),
+  b42d7ed (PCM header outside pcmd), 80e619f (pointer slot outside the sequence), 27af62a
+  (pitch clamp before narrowing), c8da697 (identifier beginning with a digit), the repair of
+  D11 (add_song re-homes the playback window `pcmd[position + start, +size)` of a PCM header and
+  passes `start = 0`; same commit as the Wave_Bank repair, see Model/Wave.lean), and 8769e2a (sample
+  index of add_sample kept in an unsigned int).
 
   One definition per C++ function: `addSong` (chunk walk over Model/Riff, `checkVersion`, patch
   table, PCM re-homing through Model/Wave.addSample, group keying), `getSeqData` (bank layout,
@@ -21,7 +23,7 @@
     * `uint32_t addr = seq_sdata + id * 2` is `u32 (sdata + u32 (id * 2))`; it is stored in a
       `uint16_t` pair member: `% 65536`;
     * `uint16_t offset = add_unique_data(..)`: `% 65536` (the result of `wave_rom.add_sample(..)` is an
-      `unsigned int` since fix 8d3c42d and indexes the headers as it is);
+      `unsigned int` since fix 8769e2a and indexes the headers as it is);
     * `data_offset[j.second & 0x7fff] | (j.second & 0x8000)` written by `write_be16`: low 16 bits;
     * `write_be16(data, 6, id - 1)`, the `uint16_t value` of `asm_define`/`c_define`: `% 65536`;
     * `write_be32` of offsets and `(position + start) | (cp << 24)`: `% 2^32` inside `be32`.
@@ -216,7 +218,7 @@ structure Acc where
   wave : Wave.Bank
   patch : List (Nat × Nat)
 
-/-- `seq_sdata + id*2` has a pointer slot inside the sequence (fix 2e3fb5a) -/
+/-- `seq_sdata + id*2` has a pointer slot inside the sequence (fix 80e619f) -/
 def slotInside (sdata id seqLen : Nat) : Bool := sdata + (id % 2147483648) * 2 + 2 ≤ seqLen
 
 /-- one `glob` chunk -/
@@ -241,9 +243,9 @@ def addPcmh (sdata seqLen : Nat) (pcmd data : Bytes) (a : Acc) : Except Err Acc 
     match Wave.Sample.fromBytes (data.drop 4) with
     | none => .error .outOfRange
     | some header =>
-      if header.position + header.size > pcmd.length then .error .malformed else
-      let sample := (pcmd.drop header.position).take header.size
-      match Wave.addSample a.wave { header with position := 0 } sample with
+      if header.position + header.start + header.size > pcmd.length then .error .malformed else
+      let sample := (pcmd.drop (header.position + header.start)).take header.size
+      match Wave.addSample a.wave { header with position := 0, start := 0 } sample with
       | .error e => .error (ofWaveErr e)
       | .ok (w, sidx) =>
         match w.samples[sidx]? with
@@ -363,7 +365,7 @@ def waveTable (bank : List Bytes) (offs : List Nat) : List Wave.Sample → Excep
 
 def headerSize (n : Nat) : Nat := Tables.link_headerBase + n * Tables.link_headerPerSong
 
-/-- `MDSDRV_Linker::get_seq_data` (no state is kept between calls: fix 795bab9) -/
+/-- `MDSDRV_Linker::get_seq_data` (no state is kept between calls: fix 81bf063) -/
 def getSeqData (l : Linker) : Except Err Bytes :=
   let n := l.seqCount
   match layoutData l.dataBank (headerSize n - Tables.link_ptrBase) with
